@@ -107,6 +107,56 @@ CHECKS = {
              "(labelled): ungroup_ports on 11 x 11 port expressions x 2 option sets: one port per side, other fields kept, union of the pieces' packet sets == original, "
              "no needless split; pieces stand where the original stood at every position, flat and grouped.",
         note="Known finding: multi-operand neq is split into pieces whose union is all ports (pinned by tests). ungroup_ports is object-graph code (copy(), setters): not proved. " + TB),
+    "C02": dict(
+        level="other", design_ref="DESIGN.md 5/C02",
+        technique="bounded contract checking of the platform setters with the independent reader on both platforms + exact set algebra",
+        text="Contract on Acl/Ace/Address/AddrGroup.platform.fset, checked natively (bounded): per rule the packet sets before and after are equal (an eq-multi rule "
+             "becomes adjacent single-port rules whose union is the original), remarks / name / sequence numbers / group members kept, only target-platform syntax, "
+             "there-back-there == there; all ACLs of <= 2/3 items over 19/16 line kinds per direction plus seeded longer ones with switch settings; single objects too.",
+        note="No deductive obligation: the setters are data()/__init__ round trips on object graphs. Supporting kernels are proved elsewhere (C09 names, C19 lemma, C05/C13 addresses)."),
+    "C06": dict(
+        level="other", design_ref="DESIGN.md 5/C06",
+        technique="bounded contract checking: parser fixed point at 12 object levels and for the config-level functions",
+        text="X(obj.line, same configuration) renders the identical text and exports identical data (one step for native input; stable from the first re-parse for foreign "
+             "spellings), for Port, Protocol, Option, Wildcard, Address, AddressAg, AddrGroup, Remark, Ace, AceGroup, Acl and acls/aces/addrgroups, over the gen_ace "
+             "grammar x versions x switches, address spellings, odd remarks, standard ACLs, indent settings.",
+        note="Bounded only (regex constructors). Meaning of the rendered text is C01."),
+    "C07": dict(
+        level="other", design_ref="DESIGN.md 5/C07",
+        technique="bounded contract checking of acls()/addrgroups() against an independent line-oriented configuration reading",
+        text="Assembled configurations (<= 3 ACLs incl. standard, <= 2 address groups, <= 2 interfaces with in/out bindings to different ACLs, noise sections, comments, "
+             "indent 1..4, seeded section order, name filter): every ACL once with name, type, entries in order, in/out interfaces, exactly the defined group members.",
+        note="Bounded only (regex section parser). One defect found and fixed (bindings)."),
+    "C14": dict(
+        level="other", design_ref="DESIGN.md 5/C14",
+        technique="bounded contract checking of address.collapse / address_ag.collapse with exact trie/cube algebra",
+        text="All lists of <= 3/4 networks from the 31 prefixes of a /28 plus /0 and both /1 (any order, duplicates, nesting, adjacency), both classes, both platforms: "
+             "covered set equal, never longer, sorted, notes empty, class/platform kept; non-contiguous wildcards and foreign types refused with TypeError.",
+        note="collapse_ work-list loop not under a deductive contract; termination observed only."),
+    "C16": dict(
+        level="other", design_ref="DESIGN.md 5/C16",
+        technique="bounded contract checking of copy()/data() (equality, disjoint reachable mutable state by id, mutate-then-observe) and of identifier/note stability",
+        text="13 object kinds x 2 platforms x {copy, Class(**data())}: equal text and data, no shared mutable state except notes, changing either side never changes the "
+             "other; 9 in-place transformations keep uuid and note of all items and nested address objects.",
+        note="Not applicable to deduction: aliasing through **data()/__dict__.update needs an ownership logic the verifier does not have. Known finding: nested Port/Protocol/Option uuids."),
+    "C17": dict(
+        level="other", design_ref="DESIGN.md 5/C17",
+        technique="bounded model-based contract checking: per-operation contract View' == Model_op(View) from all states reached by short operation sequences",
+        text="20 operations (with arguments) from 5 seed ACLs: all sequences of <= 2/3 operations plus seeded random sequences of 3..8; after every step the rendered text "
+             "re-parses to itself and, read independently, is exactly the rule list predicted by a reference model (blocks, numbers, splits, shadow removal).",
+        note="Whole-history quantifier: only the per-operation base case is checkable; no deductive obligation."),
+    "C18": dict(
+        level="other", design_ref="DESIGN.md 5/C18",
+        technique="bounded contract checking of range_ports / range_protocols against a reference parse of the request",
+        text="Comma lists of <= 3/4 elements (numbers, a-b ranges, empty elements, full ranges) x side x template operator x ports-per-line 1..4 x both policies x platforms: "
+             "valid lines, only the generated field differs, limit respected, policy respected, union == request; refusals only where no valid line exists.",
+        note="No deductive obligation yet (_split_range_for_ace works on text tokens and external helpers). One defect found and fixed (full-range requests)."),
+    "C20": dict(
+        level="other", design_ref="DESIGN.md 5/C20",
+        technique="safety/termination obligations of the text kernels under contract (own VC generator) + bounded exception-class / time-limit / re-acceptance checking on generated text",
+        text="Discharged: helpers.is_line_for_acl terminates (length decreases) without recursion and without index errors. Bounded (labelled): 14 entry points x 2 platforms "
+             "on token soups, truncated / permuted / corrupted valid texts, empty and very long inputs: returns or raises ValueError/TypeError within 5 s; returned text is accepted again.",
+        note="Known findings: Acl('') and Remark('') (empty default constructors) render text they reject. Regex run time only by wall clock."),
 }
 
 NA_REASON = "check not built yet (framework under construction; see DESIGN.md section 7 build order)"
